@@ -1,6 +1,6 @@
 """C05 -- differentiate returns the partial derivatives in variable order (structural clauses)."""
 from ..core import Ctx, Ob, PropSpec
-from ..rules import r2, r3, r7, r8, r7i, r4r
+from ..rules import r5 as r5_, r2, r3, r7, r8, r7i, r4r
 
 DIFF = "cirkit.symbolic.functional.differentiate"
 
@@ -18,6 +18,7 @@ def run(ctx: Ctx) -> list[Ob]:
     obs += [o for o in r3.r3f(ctx, "params") if o.construct.endswith("TorchPolynomialDifferential")]
     obs += r7i.rewiring_order(ctx, ['differentiate'])
     obs += r4r.operator_rule_shapes(ctx, {'DIFFERENTIATION'})
+    obs += r5_.r5d(ctx)
     return obs
 
 
@@ -32,8 +33,9 @@ SPEC = PropSpec(
         "R2a/R2b/R2c for the DIFFERENTIATION rule and .copyref() of every copied layer; R8: smooth/decomposable and order<=0 guards "
         "under every valuation (functional, pipeline, layer rule, parameter node); R3f: the order hyper-parameter of "
         "TorchPolynomialDifferential is a config key, i.e. survives the folder's re-instantiation ('every order k' under fold=True). R7i: every comprehension over <circuit>.layer_inputs(<layer>) that re-wires a copied layer in this operator is an order-preserving total map (no `if` filter, not concatenated, not sorted / reversed / made a set): product layers and sum weights are positional. R4r (symbolic shape interpretation of the operator rules, nothing executed): each differentiation layer rule, applied to abstract operand layers built by interpreting the symbolic layer constructors on symbolic sizes (every parameterisation: probs / logits, optional log-partition, arity 1..3), composes parameter nodes only with operands of the shapes the nodes were built for, hands the resulting layer parameters of exactly the shape its constructor validates (for all sizes, not only when two sizes coincide) and returns a layer with Ko output units."
+        " R5d (exponent ramp, by abstract interpretation with integer-ramp values and slice origins): in TorchPolynomialDifferential.forward, for order 1 and 2 (3 in the thorough tier), every product of a slice of the coefficient axis with an integer ramp pairs the coefficient of x^n with the multiplier n (slice origin == first value of the ramp), one such step per order -- a hoisted arange sliced by the loop counter multiplies the later steps by shifted numbers of the right shape."
     ),
-    not_decided="polynomial derivative coefficients, the product rule itself (numerical).",
+    not_decided="the product rule itself and floating-point values (numerical); derivative coefficients only in the step-wise slice * ramp formulation R5d models.",
     run=run,
-    floors={"R4r": 2, "R7i": 4, "R7b": 1, "R2g": 3, "R8": 6, "R3f": 1},
+    floors={"R5d": 2, "R4r": 2, "R7i": 4, "R7b": 1, "R2g": 3, "R8": 6, "R3f": 1},
 )
